@@ -49,6 +49,10 @@ CLAIMED = {
     "C11": ("symbolic execution of dijkstra/astar/astar_grid/bfs/dfs/bellman_ford/floyd_warshall/dijkstra_edges with lazily forked arc presence and unbounded symbolic weights, heuristic values, max_cost, max_iter; optimality against the explicit list of simple paths/cycles via z3",
             "Bounded model checking: on the potential graphs of the bound, for EVERY arc subset (lazy) and EVERY weight vector / consistent heuristic / limit value: exact distances, genuine paths, INFEASIBLE iff unreachable, UNBOUNDED iff (reachable) negative cycle; grids: every layout of the shapes with symbolic terrain cost.",
             GEN_NOTE, "DESIGN.md 4/C11"),
+    "C12": ("symbolic execution of the routing decorator, the nine Rust adapters and the Python back-ends with the compiled kernel replaced by a twin (Python reference re-packed in the kernel's dict format), weights symbolic Reals / edge presence symbolic; the Rust kernels themselves only by replaying every path witness through the extension rebuilt from /repo/rust",
+            "Two layers, stated in the evidence: (a) bounded model checking of adapters + routing + Python back-ends (same status / distances / reachability / weight / partition, valid paths and orders) for ALL weights on the edge lists of the bound; (b) the rebuilt Rust extension is compared natively (rust vs python vs default back-end) on the witness of every explored path - solver-generated path-covering tests, not a for-all verdict over the kernels.",
+            "Trusted: z3, symx; the twin-kernel assumption is validated on every path witness against the real extension, not trusted. No Rust verifier exists in the sandbox; kernels are heap-backed f64/pyo3 code outside the reach of an MIR->SMT translation here.",
+            "DESIGN.md 4/C12 and 6"),
     "C13": ("symbolic execution of kruskal (Python back-end) and prim with every edge weight an unbounded SMT Real; minimality against every spanning tree/forest of the multigraph via z3",
             "Bounded model checking: every simple graph on <=4 nodes plus named multigraphs, all weights: n-1 input edges, acyclic, spanning, objective = total weight <= every spanning tree; disconnected -> INFEASIBLE / minimum forest with allow_forest.",
             GEN_NOTE, "DESIGN.md 4/C13"),
